@@ -1,5 +1,6 @@
 """Active-object world: 1-3 real ActiveObjects (consumer thread, timer threads), the real
 fabric and writer, and 1-6 scripted client threads, all under the seeded scheduler."""
+import collections as _collections
 import random
 import uuid as _uuid
 
@@ -23,6 +24,7 @@ class AORun(object):
     self.handles = {}        # (client, slot) -> id returned by a timed post
     self.sources = []        # timed sources: dict(obj, kind, sig, period, times, deferred, t0_us, begin, end, threads, id, rejected, exc)
     self.cancels = []        # dict(obj, how, target, begin, end)
+    self.taps = []           # plain deques subscribed to the fabric by 'tap' steps
     self.stops = []          # dict(obj, begin, end, from)
     self.pubs = {}           # uid -> dict(sig, prio, begin, end, by)
     self.subs = []           # dict(obj, sig, kind, begin, end, where)
@@ -342,6 +344,12 @@ class AORun(object):
         elif kind == 'subscribe':
           oi, sig, sk = op[1:4]
           self.do_subscribe(oi, self.objs[oi], sig, sk, k, op[4] if len(op) > 4 else None)
+        elif kind == 'tap':
+          # a plain deque (a monitor) subscribes to the signal on the same fabric
+          _, oi, sig, sk = op
+          tap = _collections.deque(maxlen=50)
+          self.taps.append(tap)
+          self.objs[oi].fabric.subscribe(tap, ev.Event(signal=sig), sk)
         elif kind == 'stop':
           oi = op[1]
           rec = {'obj': oi, 'begin': b, 'end': None, 'from': k}
